@@ -11,14 +11,19 @@
               leaves a partial file) | (complete: adopt it)
      items:   for every enabled service: get -> (absent: generate, set) | (present: adopt)
    Deviation "token_read_back_unvalidated": the file is written in place (a kill leaves a
-   prefix) and whatever is found is adopted, also an empty or truncated identifier.       *)
+   prefix) and whatever is found is adopted, also an empty or truncated identifier.
+   The atomic write is itself two steps - the new identifier goes to a temporary file
+   (disk.tmp, which a kill can leave absent, partial or complete) and is renamed over the
+   token file - and whatever an earlier start left in the temporary file is overwritten.
+   Model regression only: "tmp_exclusive_create" - the temporary file is created exclusively:
+   a leftover one makes persisting fail (silently), so every later start invents a new token. *)
 EXTENDS Integers, Sequences, FiniteSets, TLC
 
 CONSTANTS Items, Deviations, MaxStarts
 
-VARIABLES disk,      \* [token, items]
+VARIABLES disk,      \* [token, tmp, items]
           mem,       \* identity presented by the running process: [token, items] ("none" when down)
-          pc,        \* "down" | "token" | "items" | "up"
+          pc,        \* "down" | "token" | "token-tmp" | "token-rename" | "items" | "up"
           enabled,   \* services enabled in this start
           fresh,     \* counter for generated values
           starts,    \* number of starts so far
@@ -30,7 +35,7 @@ Absent == <<"absent", 0>>
 Partial == <<"partial", 0>>
 None == <<"none", 0>>
 NoItems == [i \in Items |-> Absent]
-Init == /\ disk \in { [token |-> t, items |-> NoItems] : t \in {Absent, Partial, <<"id", 0>>} }
+Init == /\ disk \in { [token |-> t, tmp |-> u, items |-> NoItems] : t \in {Absent, Partial, <<"id", 0>>}, u \in {Absent, Partial, <<"id", 50>>} }
         /\ mem = [token |-> None, items |-> NoItems] /\ pc = "down" /\ enabled = {} /\ fresh = 1
         /\ starts = 0 /\ seen = <<>>
 
@@ -52,9 +57,22 @@ TokenStep ==
                    mem' = [mem EXCEPT !.token = disk.token] /\ pc' = "items" /\ UNCHANGED <<disk, fresh>>
        ELSE IF WellFormedToken(disk.token)
               THEN mem' = [mem EXCEPT !.token = disk.token] /\ pc' = "items" /\ UNCHANGED <<disk, fresh>>
-              ELSE disk' = [disk EXCEPT !.token = <<"id", fresh>>] /\ mem' = [mem EXCEPT !.token = <<"id", fresh>>]
-                   /\ fresh' = fresh + 1 /\ pc' = "items"
+              ELSE \* generate; persisting it takes the two steps below
+                   mem' = [mem EXCEPT !.token = <<"id", fresh>>] /\ fresh' = fresh + 1 /\ pc' = "token-tmp" /\ UNCHANGED disk
   /\ UNCHANGED <<enabled, starts, seen>>
+
+TokenTmp ==
+  /\ pc = "token-tmp"
+  /\ IF "tmp_exclusive_create" \in Deviations /\ disk.tmp # Absent
+       THEN pc' = "items" /\ UNCHANGED disk               \* cannot create it: goes on without having persisted anything
+       ELSE \/ (disk' = [disk EXCEPT !.tmp = Partial] /\ UNCHANGED pc)          \* still writing (a kill here leaves a partial file)
+            \/ (disk' = [disk EXCEPT !.tmp = mem.token] /\ pc' = "token-rename")
+  /\ UNCHANGED <<mem, enabled, fresh, starts, seen>>
+
+TokenRename ==
+  /\ pc = "token-rename"
+  /\ disk' = [disk EXCEPT !.token = disk.tmp, !.tmp = Absent] /\ pc' = "items"
+  /\ UNCHANGED <<mem, enabled, fresh, starts, seen>>
 
 ItemStep(i) ==
   /\ pc = "items" /\ i \in enabled /\ mem.items[i] = Absent
@@ -73,7 +91,7 @@ Kill == /\ pc # "down"
         /\ pc' = "down" /\ mem' = [token |-> None, items |-> NoItems]
         /\ UNCHANGED <<disk, enabled, fresh, starts, seen>>
 
-Next == (\E en \in SUBSET Items : Start(en)) \/ TokenStep \/ (\E i \in Items : ItemStep(i)) \/ Up \/ Kill
+Next == (\E en \in SUBSET Items : Start(en)) \/ TokenStep \/ TokenTmp \/ TokenRename \/ (\E i \in Items : ItemStep(i)) \/ Up \/ Kill
 Spec == Init /\ [][Next]_vars
 
 \* ---- properties -------------------------------------------------------------------
